@@ -250,6 +250,17 @@ func runHarness(harness, pkgdir, tier, solverName string, timeoutMs int, trace b
 			fmt.Sscan(v, &ex.MaxPreempt)
 		}
 	}
+	budget := 15 * time.Minute
+	if tier == "thorough" {
+		budget = 60 * time.Minute
+	}
+	if v := hi.Opts["budget"]; v != "" {
+		if d, err := time.ParseDuration(v); err == nil {
+			budget = d
+		}
+	}
+	ex.Deadline = time.Now().Add(budget)
+	ex.ViolationGrace = 90 * time.Second
 	ex.Known = loadKnown()
 	ex.Forced = forced
 	ex.Progress = showProgress
